@@ -45,6 +45,26 @@ theorem get_meta_index_is_model (shape idx : List Nat) (sd : Nat) (al : Bool) (e
       getMeta e ⟨shape, some sd, al⟩ (some (cl, vals)) (some idx) :=
   Src.get_meta_index_eq shape idx sd al e cl vals h3 h5 hsd3 hc hvalid
 
+/-- **`is_constant` as written in dcmmeta.py is the model's `pyIsConstant`** (guards and result), for
+    every list and period -/
+theorem is_constant_is_model [DecidableEq α] (l : List α) (p : Option Nat) :
+    Py.is_constant l p = errOf (pyIsConstant l p) :=
+  Src.is_constant_eq l p
+
+/-- **`is_repeating` as written in dcmmeta.py is the model's `pyIsRepeating`** -/
+theorem is_repeating_is_model [DecidableEq α] (l : List α) (p : Nat) :
+    Py.is_repeating l p = errOf (pyIsRepeating l p) :=
+  Src.is_repeating_eq l p
+
+/-- **`_get_const_period` as written in dcmmeta.py is the model's `constPeriod`** on every entry of
+    the `_const_tests` table whose classes are valid for the shape -/
+theorem get_const_period_is_model (e : DExt κ α) (h3 : 3 ≤ e.shape.length) (h5 : e.shape.length ≤ 5)
+    (hsl : e.sliceDim.isSome = true) (src dest : Cls) (hs : src ∈ validClasses e.shp)
+    (hd : dest ∈ validClasses e.shp) (htab : dest ∈ constTests src) :
+    Py.get_const_period e.shape (e.sliceDim.map fun d => e.shape.getD d 1) src dest =
+      .ok (constPeriod e.shp src dest) :=
+  Src.get_const_period_eq e h3 h5 hsl src dest hs hd htab
+
 /-- the translator translated every function it is asked for -/
 theorem translator_complete : Gen.codeMissing = [] := rfl
 
